@@ -309,7 +309,7 @@ pub fn c05_static_eval(case: &Value) -> Outcome {
     let Some(Ok(_)) = &a.out else { return Outcome::skip("output unparsable (C08)") };
     match a.erased.as_ref().unwrap() {
         Err(e) => {
-            if e.sig == "hook-namespace-left" || e.sig == "hook-shape" {
+            if e.sig == "hook-namespace-left" || e.sig == "hook-shape" || e.sig == "unfolded-without-hook" {
                 return Outcome::fail(format!("C05:{}", e.sig), e.detail.clone());
             }
             Outcome::skip(format!("round trip failed: {} ({})", e.sig, owner_of(&e.sig)))
